@@ -358,6 +358,79 @@ def lean_bytes(bs):
     return "[" + ", ".join(str(b) for b in bs) + "]"
 
 
+# State functions are independent items: the order in which they are defined (within a file, across files, or the order of
+# the group instantiations) has no meaning in the Rust. The table is therefore emitted in ONE canonical order — the order at
+# the pinned commit — so that moving definitions around does not renumber states; a state unknown here (new or renamed)
+# is appended after the known ones in discovery order.
+CANONICAL_STATE_ORDER = [
+    "cdata_section_state",
+    "cdata_section_bracket_state",
+    "data_state",
+    "plaintext_state",
+    "rawtext_state",
+    "rawtext_less_than_sign_state",
+    "rawtext_end_tag_open_state",
+    "rawtext_end_tag_name_state",
+    "rcdata_state",
+    "rcdata_less_than_sign_state",
+    "rcdata_end_tag_open_state",
+    "rcdata_end_tag_name_state",
+    "script_data_state",
+    "script_data_less_than_sign_state",
+    "script_data_end_tag_open_state",
+    "script_data_end_tag_name_state",
+    "script_data_escape_start_state",
+    "script_data_escaped_dash_dash_state",
+    "script_data_escaped_state",
+    "script_data_escaped_less_than_sign_state",
+    "script_data_escaped_end_tag_open_state",
+    "script_data_escaped_end_tag_name_state",
+    "script_data_double_escaped_start_state",
+    "script_data_double_escaped_state",
+    "script_data_double_escaped_dash_dash_state",
+    "script_data_double_escaped_less_than_sign_state",
+    "script_data_double_escaped_end_tag_name_state",
+    "script_data_double_escaped_end_state",
+    "tag_open_state",
+    "end_tag_open_state",
+    "markup_declaration_open_state",
+    "tag_name_state",
+    "self_closing_start_tag_state",
+    "before_attribute_name_state",
+    "attribute_name_state",
+    "after_attribute_name_state",
+    "before_attribute_value_state",
+    "attribute_value_single_quoted_state",
+    "attribute_value_double_quoted_state",
+    "attribute_value_unquoted_state",
+    "bogus_comment_state",
+    "comment_start_state",
+    "comment_state",
+    "comment_start_dash_state",
+    "comment_end_dash_state",
+    "comment_end_state",
+    "comment_less_than_sign_state",
+    "comment_less_than_sign_bang_state",
+    "comment_less_than_sign_bang_dash_state",
+    "comment_less_than_sign_bang_dash_dash_state",
+    "comment_end_bang_state",
+    "doctype_state",
+    "before_doctype_name_state",
+    "doctype_name_state",
+    "after_doctype_name_state",
+    "after_doctype_public_keyword_state",
+    "after_doctype_system_keyword_state",
+    "before_doctype_public_identifier_state",
+    "before_doctype_system_identifier_state",
+    "doctype_public_identifier_state",
+    "doctype_system_identifier_state",
+    "after_doctype_public_identifier_state",
+    "after_doctype_system_identifier_state",
+    "between_doctype_public_and_system_identifiers_state",
+    "bogus_doctype_state",
+]
+
+
 def translate(repo):
     groups = find_groups(repo)
     inst, dyn = instantiated_groups(repo)
@@ -378,6 +451,15 @@ def translate(repo):
                 raise TranslateError(f"duplicate state {st['name']}")
             origin[st["name"]] = rel
             states.append(st)
+    rank = {n: i for i, n in enumerate(CANONICAL_STATE_ORDER)}
+    present = {st["name"] for st in states}
+    missing = [n for n in CANONICAL_STATE_ORDER if n not in present]
+    unknown = [st["name"] for st in states if st["name"] not in rank]
+    if len(missing) == 1 and len(unknown) == 1:
+        # one state renamed: it keeps the slot of the name that disappeared (the numbering stays; name-based
+        # obligations such as the comparison with the WHATWG reference table will still ask for the new name)
+        rank[unknown[0]] = rank[missing[0]]
+    states = [st for _, st in sorted(enumerate(states), key=lambda p: (rank.get(p[1]["name"], len(rank)), p[0]))]
     index = {st["name"]: i for i, st in enumerate(states)}
 
     def sid(name):
